@@ -8,7 +8,7 @@ Tie:   the REAL Axi2Reg / Reg2Axi objects under schedules, every cycle compared
        plus an exhaustive closure: every reachable snapshot of the real block x every input over small data, one-step
        comparison with model and reference machine in Coq (covers every schedule of every length over those values).
 Search: the same sweeps (monitor on the real block); the failing schedule is the replay."""
-import itertools, random, json, sys
+import itertools, random, json, sys, gc
 import common, netlist
 from common import quiet, zlit
 from props import c16_blocks as B
@@ -105,7 +105,7 @@ def random_sweep(ctx, n_sched, n_cycles, with_coq):
                     o = orig(i); full.append(dp.values()); return o
                 blk.step = step
             tr, viol = run_monitored(blk, sched, mon, ctx, 'random_sweep kind=%s index=%d' % (kind, k))
-            ctx.count((blk.name, W, DW, kind, hash(tuple(sched))), n=len(sched))
+            ctx.count(hash((blk.name, W, DW, kind, tuple(sched))), n=len(sched))
             if viol:
                 ctx.violation(viol); raise Stop()
             if k < 2: ctx.sample({'block': blk.name, 'W': W, 'DW': DW, 'kind': kind, 'first_cycles': [list(x) for x in sched[:4]], 'outputs': tr[:4]})
@@ -114,6 +114,7 @@ def random_sweep(ctx, n_sched, n_cycles, with_coq):
                 ids = [dp.wid[id(w)] for w in blk.inw]
                 steps = [([(wid, v) for wid, v in zip(ids, i)], 1) for i in sched]
                 dumps.append((dp, steps, iv, full, blk.name, W, DW, sched))
+    ctx.log('random sweep: real blocks driven')
     if not with_coq: return True
     # (a) model / reference machine / history reading in Coq against the recorded traces
     items = []
@@ -140,6 +141,7 @@ def random_sweep(ctx, n_sched, n_cycles, with_coq):
                           'inputs': '(ap_start, ap_reset, ap_done, tvalid, tdata)' if name == 'a' else '(ap_start, ap_reset, ap_done, load_outs, tready, reg_in)'}
                     # a disagreement with the spec is a failing input; with the model only, the tie is broken (the monitors found nothing)
                     ctx.violation(rp, found_input=spec); raise Stop()
+    ctx.log('random sweep: traces compared with model / reference / history in Coq')
     # (b) dumped netlist under the kernel model
     for c in range(0, len(dumps), 8):
         part = dumps[c:c + 8]
@@ -187,7 +189,7 @@ def closure(ctx, cls, W, DW, data, depth, with_coq):
                     msg, outside = mon.check(prev, i, new), None       # (the history reading is checked on whole paths: random_sweep, explicit_paths)
                 else:
                     msg, outside = mon.check(prev, i, new)
-                ctx.count((blk.name, W, DW, snap, i))
+                ctx.count(hash((blk.name, W, DW, snap, i)))
                 if outside:
                     f = known(ctx, F_DUP)
                     if f: ctx.known_finding(F_DUP, f['text'])
@@ -345,6 +347,8 @@ def run(ctx):
         if not model_ok: ctx.notes['model_build'] = b['msg']
     tie_ok = r['ok'] and model_ok
     q = ctx.quick
+    gc.disable()        # hundreds of thousands of small tuples are alive during the sweeps; collections only cost time
+    ctx.log('proofs built: %s' % r['ok'])
     try:
         random_sweep(ctx, 48 if q else 400, 40 if q else 60, with_coq=model_ok)
         for cls in (B.A2R, B.R2A):
